@@ -583,7 +583,7 @@ def rules(ctx: Ctx) -> None:
     # (= R05.3) a statement's reads and writes are its own: nothing an extractor collected for an earlier statement is left in it
     _imp03(ctx, "C05", {"R05.3": "R03.6"}, key_filter=lambda o: o.key.startswith(("analyzer-state", "per-query-object")))
     # ---- R03.7 (= R18.1, edges): the edges are observed through the export as well - it lists every edge of the graph, a statement's r -> r included
-    _imp03(ctx, "C18", {"R18.1": "R03.7"}, key_filter=lambda o: o.key.startswith("edges:"))
+    _imp03(ctx, "C18", {"R18.1": "R03.7"}, key_filter=lambda o: o.key.startswith(("edges:", "graph:")))
 
 
 def _fmt(v: dict) -> str:
